@@ -91,21 +91,24 @@ fn walk_symbols_with_control_flow<'a, V, F>(
 where
     F: FnMut(Symbol<'a>) -> ControlFlow<V>,
 {
+    fn visit_type<'a, V, F>(t: &'a ast::Type, f: &mut F) -> ControlFlow<V>
+    where
+        F: FnMut(Symbol<'a>) -> ControlFlow<V>,
+    {
+        if t.kind == ast::TypeKind::Array {
+            // For arrays, start with the array element type, then on the array itself
+            t.generic_types.iter().try_for_each(|t| visit_type(t, f))?;
+            f(Symbol::Type(t))
+        } else {
+            // For other types, start with the main type and then its generic types
+            f(Symbol::Type(t))?;
+            t.generic_types.iter().try_for_each(|t| visit_type(t, f))
+        }
+    }
+
     macro_rules! visit_type_helper {
         ($t:expr, $f:ident) => {
-            if $t.kind == ast::TypeKind::Array {
-                // For arrays, start with the array element type, then on the array itself
-                $t.generic_types
-                    .iter()
-                    .try_for_each(|t| $f(Symbol::Type(t)))?;
-                $f(Symbol::Type($t))?;
-            } else {
-                // For other types, start with the main type and then its generic types
-                $f(Symbol::Type($t))?;
-                $t.generic_types
-                    .iter()
-                    .try_for_each(|t| $f(Symbol::Type(t)))?;
-            }
+            visit_type($t, &mut $f)?;
         };
     }
 
